@@ -25,7 +25,12 @@ pub fn convert(
     let mut rules: Vec<Box<dyn VarResolve>> = vec![];
     rules.push(Box::new(ExistingVar::default()));
     rules.push(Box::new(ExistingConst::new_local()));
-    if extra.element != ExprContext::Default {
+    if extra.element == ExprContext::Argument {
+        // inside its own body the name of a function is its result variable (passed by reference),
+        // everywhere else it is a call of the function without arguments
+        rules.push(Box::new(AssignToFunction::default()));
+        rules.push(Box::new(VarAsBuiltInFunctionCall::default()));
+    } else if extra.element != ExprContext::Default {
         rules.push(Box::new(AssignToFunction::default()));
     } else {
         rules.push(Box::new(VarAsBuiltInFunctionCall::default()));
@@ -230,6 +235,10 @@ impl VarResolve for AssignToFunction {
             let expr = Expression::Variable(converted_name, expr_type);
 
             Ok(expr)
+        } else if extra.element == ExprContext::Argument {
+            // a function without arguments used as (part of) an argument: a call of that function
+            let converted_name = try_qualify(name, function_qualifier).with_err_at(&extra.pos)?;
+            Ok(Expression::FunctionCall(converted_name, vec![]))
         } else {
             Err(LintError::DuplicateDefinition.at_pos(extra.pos))
         }
